@@ -147,6 +147,8 @@ func runC05(c *eng.Ctx) {
 	cr := &caseRunner{c: c, prop: "C05"}
 	runC05Graph(c, cr)
 	RunInitializerCycles(c, cr.next)
+	RunLiveProviderVsCyclicEdit(c, cr.next)
+	RunRefusedThenValid(c, "C05", cr.next)
 	lifeSets := [][4]godi.Lifetime{
 		{godi.Singleton, godi.Singleton, godi.Singleton, godi.Singleton},
 		{godi.Scoped, godi.Scoped, godi.Scoped, godi.Scoped},
